@@ -8,6 +8,7 @@ package grid
 // client abort after every prefix.
 
 import (
+	"os"
 	"bytes"
 	"context"
 	"fmt"
@@ -614,6 +615,11 @@ func TestC14(t *testing.T) {
 	time.Sleep(50 * time.Millisecond)
 	e.baseG, _ = handlerGoroutines()
 	e.baseFD = openFDs()
+	if part == "space" {
+		f.close()
+		c14Space(rep, mode)
+		return
+	}
 	switch part {
 	case "digests":
 		e.grpcDigestCells()
@@ -635,4 +641,114 @@ func TestC14(t *testing.T) {
 	_ = disk.VfDrain
 	rep.Extra["cells"] = e.cells
 	rep.Sample(map[string]interface{}{"part": part, "mode": mode, "cells": e.cells})
+}
+
+// fdsInto counts this process's descriptors that point into dir.
+func fdsInto(dir string) (int, string) {
+	des, _ := os.ReadDir("/proc/self/fd")
+	n := 0
+	first := ""
+	for _, de := range des {
+		t, err := os.Readlink("/proc/self/fd/" + de.Name())
+		if err == nil && strings.HasPrefix(t, dir) {
+			n++
+			if first == "" {
+				first = t
+			}
+		}
+	}
+	return n, first
+}
+
+// c14Space: uploads that are refused for lack of space, through every write
+// path: the blob is larger than max_size; the blob fits but other requests'
+// reservations hold the space; with max_size_hard_limit; SpliceBlob whose
+// chunks each fit but whose result does not (the same chunk twice, two
+// chunks). After EVERY cell: no handler goroutine, no reservation, no open
+// descriptor into the cache directory, directory == index.
+func c14Space(rep *vlib.Report, mode string) {
+	const max = 256 << 10
+	for _, hard := range []int64{0, max + 64<<10} {
+		f := newFx(fxOpts{mode: mode, validateAC: true, asset: true, maxSize: max, hardLimit: hard})
+		e := &c14Env{rep: rep, f: f, mode: mode}
+		f.settle()
+		time.Sleep(30 * time.Millisecond)
+		e.baseG, _ = handlerGoroutines()
+		baseFD, _ := fdsInto(f.dir)
+		ctr := 0
+		for _, cause := range []string{"larger-than-max_size", "space-held-by-reservations", "fits"} {
+			for _, path := range writePaths {
+				for _, shape := range []string{"one", "same-chunk-twice", "two-chunks"} {
+					if shape != "one" && !strings.HasPrefix(path, "splice") {
+						continue
+					}
+					ctr++
+					n := 300 << 10
+					if cause != "larger-than-max_size" {
+						n = 100 << 10
+					}
+					content := vlib.Bytes(fmt.Sprintf("c14/space/%s/%d/%d", mode, hard, ctr), n, false)
+					var chunks [][]byte
+					switch shape {
+					case "one":
+						chunks = [][]byte{content}
+					case "same-chunk-twice":
+						content = append(append([]byte(nil), content[:n/2]...), content[:n/2]...)
+						chunks = [][]byte{content[:n/2], content[:n/2]}
+					case "two-chunks":
+						chunks = [][]byte{content[:n/2], content[n/2:]}
+					}
+					if path == "fetch" || path == "fetch_nosri" {
+						continue // needs an origin server; covered by C01/C17
+					}
+					wire := content
+					if pathIsZstd(path) {
+						wire = vlib.ZstdEncode(content)
+					}
+					u := upReq{path: path, hash: vlib.Sha(content), size: int64(len(content)), wire: wire, chunks: chunks, abortAfter: -1, msgSize: 64 << 10}
+					id := fmt.Sprintf("mode=%s max_size=%d hard_limit=%d path=%s shape=%s cause=%s blob=%d bytes", mode, max, hard, path, shape, cause, len(content))
+					held := int64(0)
+					if cause == "space-held-by-reservations" {
+						// splice: the chunks are uploaded first (they fit), then the space is taken
+						if strings.HasPrefix(path, "splice") {
+							u2 := u
+							u2.path = "batch"
+							for _, c := range chunks {
+								f.upload(upReq{path: "batch", hash: vlib.Sha(c), size: int64(len(c)), wire: c, abortAfter: -1})
+							}
+							_ = u2
+						}
+						f.settle()
+						_, _, _, _ = f.cache.Stats()
+						st := disk.VfSnapshot(f.cache)
+						// reservations cannot be evicted, entries can: hold everything but
+						// 8 KiB (with a hard limit, which refuses before evicting, everything
+						// up to one block below the limit)
+						held = max - st.Reserved - 8192
+						if hard > 0 && st.CurrentSize+st.QueuedBytes+held > hard-4096 {
+							held = hard - 4096 - st.CurrentSize - st.QueuedBytes
+						}
+						if err := disk.VfReserve(f.cache, held); err != nil {
+							rep.BrokenHarness("cannot take the reservation for %s: %v", id, err)
+							return
+						}
+					}
+					e.run("space", id, false, func(ctx context.Context) (bool, string) {
+						r := f.upload(u)
+						return r.ok, r.status
+					})
+					if held > 0 {
+						_ = disk.VfUnreserve(f.cache, held)
+					}
+					e.leakCheck("space", id)
+					if ok := waitFor(func() bool { k, _ := fdsInto(f.dir); return k <= baseFD }); !ok {
+						k, first := fdsInto(f.dir)
+						rep.Violate("C14 space request left an open file behind", fmt.Sprintf("%s: %d descriptors into the cache directory (before: %d), e.g. %s", id, k, baseFD, first), nil)
+						baseFD = k
+					}
+				}
+			}
+		}
+		f.close()
+	}
 }
